@@ -50,6 +50,9 @@ func runC04(c *Ctx) {
 		return
 	}
 	c04PaginatedEmptiness(c, pr)
+	if pr.sortFlag != "" {
+		c.shared(func() { c14SortFlag(c, pr) }, func(o *Obligation) bool { return true })
+	}
 	mine := keyMentions("DenseStore", "SparseStore", "BufferedPaginatedStore")
 	notCollapsing := func(o *Obligation) bool {
 		return mine(o) && !strings.Contains(o.Key, "Collapsing") && !strings.Contains(o.Func, "Collapsing")
